@@ -10,8 +10,18 @@ Proof. exact folding_preserves_the_text. Qed.
 Check C20_folding_preserves_text : forall w line, join_sp (fold_line w line) = line.
 Print Assumptions C20_folding_preserves_text.
 
-(* An inline comment is written on one line whatever its text: no LF and no CR survives, every other
-   character is kept in place. *)
+(* ... and every written line of a logical line that starts with text starts with text itself (neither a
+   space nor a tab), so the reader folds each break into exactly one space and never keeps it as a
+   "more-indented" line. *)
+Theorem C20_folded_lines_start_with_text : forall w c r,
+  is_blank c = false -> Forall starts_ok (fold_line w (c :: r)).
+Proof. exact folded_lines_start_with_text. Qed.
+Check C20_folded_lines_start_with_text : forall w c r,
+  is_blank c = false -> Forall starts_ok (fold_line w (c :: r)).
+Print Assumptions C20_folded_lines_start_with_text.
+
+(* An inline comment is written on one line whatever its text: no LF, no CR and no NUL (which ends the
+   stream for the reader) survives, every other character is kept in place. *)
 Theorem C20_comment_is_one_line : forall s, existsb is_break (sanitize_comment s) = false.
 Proof. exact sanitized_comment_is_one_line. Qed.
 Check C20_comment_is_one_line : forall s, existsb is_break (sanitize_comment s) = false.
@@ -29,9 +39,11 @@ Print Assumptions C20_comment_keeps_other_characters.
 (* Non-vacuity: "aa bb  cc dd" wrapped at 4 (a double space at a cut keeps one space on the line; the column count restarts at the cut) *)
 Example C20_example :
   fold_line 4 [97; 97; 32; 98; 98; 32; 32; 99; 99; 32; 100; 100] = [[97; 97]; [98; 98; 32]; [99; 99; 32; 100; 100]]
+  /\ fold_line 3 [97; 32; 98; 32; 9; 99; 32; 100; 32; 101] = [[97]; [98; 32; 9; 99]; [100; 32; 101]]
   /\ sanitize_comment [120; 13; 98; 58; 32; 55; 10] = [120; 32; 98; 58; 32; 55; 32].
-Proof. vm_compute. split; reflexivity. Qed.
+Proof. vm_compute. repeat split; reflexivity. Qed.
 Check C20_example :
   fold_line 4 [97; 97; 32; 98; 98; 32; 32; 99; 99; 32; 100; 100] = [[97; 97]; [98; 98; 32]; [99; 99; 32; 100; 100]]
+  /\ fold_line 3 [97; 32; 98; 32; 9; 99; 32; 100; 32; 101] = [[97]; [98; 32; 9; 99]; [100; 32; 101]]
   /\ sanitize_comment [120; 13; 98; 58; 32; 55; 10] = [120; 32; 98; 58; 32; 55; 32].
 Print Assumptions C20_example.
